@@ -110,24 +110,39 @@ impl<'a, P: for<'p> Protocol<'p>> DemoWriter<'a, P> {
 
         // Build snap.
         for (item, id) in items {
-            self.builder
-                .add_item(item.obj_type_id(), id, item.encode())?;
+            if let Err(err) = self
+                .builder
+                .add_item(item.obj_type_id(), id, item.encode())
+            {
+                // Don't let the items added so far leak into the next snap.
+                self.builder = mem::take(&mut self.builder).finish().recycle();
+                return Err(err.into());
+            }
         }
 
         let old_snap = mem::take(&mut self.snap);
         let new_snap = mem::take(&mut self.builder).finish();
 
-        self.inner.write_tick(is_keyframe, tick)?;
-        if is_keyframe {
+        let serialized = if is_keyframe {
             let keys = &mut self.i32_buf;
-            with_packer(&mut self.buf, |p| new_snap.write(keys, p))
-                .map_err(|_| WriteError::TooLargeSnap)?;
-            self.inner.write_snapshot(&self.buf)?;
+            with_packer(&mut self.buf, |p| new_snap.write(keys, p)).map(|_| ())
         } else {
             self.delta.create(&old_snap, &new_snap);
             let delta = &self.delta;
-            with_packer(&mut self.buf, |p| delta.write(P::obj_size, p))
-                .map_err(|_| WriteError::TooLargeSnap)?;
+            with_packer(&mut self.buf, |p| delta.write(P::obj_size, p)).map(|_| ())
+        };
+        if serialized.is_err() {
+            // Nothing has been written to the file yet, keep the old state.
+            self.buf.clear();
+            self.snap = old_snap;
+            self.builder = new_snap.recycle();
+            return Err(WriteError::TooLargeSnap);
+        }
+
+        self.inner.write_tick(is_keyframe, tick)?;
+        if is_keyframe {
+            self.inner.write_snapshot(&self.buf)?;
+        } else {
             self.inner.write_snapshot_delta(&self.buf)?;
         }
 
